@@ -48,7 +48,7 @@ ASSUMPTIONS = ['decodable PATH_INFO', 'start_response provided by the server doe
                'handler objects do not change behaviour between hasattr/getattr probes']
 
 VERBS = ['GET', 'HEAD', 'POST', 'PUT', 'DELETE', 'PATCH', 'OPTIONS']
-STATUSES = [100, 101, 102, 199, 200, 204, 206, 301, 304, 404, 500, 999]
+STATUSES = [100, 101, 102, 199, 200, 204, 206, 301, 304, 404, 500, 999, 520]
 TB_TEXT = 'TRACEBACK'
 
 PHRASES = {int(k): v for k, v in http.client.responses.items()}
@@ -78,6 +78,7 @@ def cookie_rendered(name, value):
 class Rec:
     def __init__(self):
         self.ev = []
+        self.shared = {}      # response objects the handlers of one application keep and reuse
 
 
 class RecFile:
@@ -200,7 +201,11 @@ FALSY = {'none': None, 'estr': '', 'ebytes': b'', 'zero': 0, 'elist': [], 'edict
 OTHERS = {'int': 42, 'float': 1.5, 'object': None}
 
 
-def build_resp(r, err, rec):
+def build_resp(r, err, rec, shared=None):
+    if shared is not None:
+        if shared not in rec.shared:
+            rec.shared[shared] = build_resp(r, err, rec)
+        return rec.shared[shared]
     from ombott import HTTPResponse, HTTPError
     body = build(r['body'], rec)
     if err:
@@ -224,7 +229,7 @@ def build(o, rec):
     if k == 'bytes':
         return bytes(o['b'])
     if k == 'http':
-        return build_resp(o['r'], o['err'], rec)
+        return build_resp(o['r'], o['err'], rec, o.get('shared'))
     if k == 'file':
         return FILE_CLASSES[(o['close'], o['iter'])](rec, o['id'], o['content'])
     if k == 'iter':
@@ -264,7 +269,7 @@ def run_prog(app, h, rec):
     if res['k'] == 'ret':
         return build(res['o'], rec)
     if res['k'] == 'raise_http':
-        raise build_resp(res['r'], res['err'], rec)
+        raise build_resp(res['r'], res['err'], rec, res.get('shared'))
     raise Boom('boom')
 
 
@@ -481,9 +486,22 @@ def run_impl(case):
     om.format_exc = lambda *a, **kw: TB_TEXT
     try:
         app = build_app(case, rec)
+        if case['kind'] == 'pair':
+            out = []
+            for v in variants(case):
+                rec.ev = []
+                out.append(validated_call(app, make_environ(v), rec))
+            return dict(pair=out)
         return validated_call(app, make_environ(case), rec)
     finally:
         om.format_exc = saved
+
+
+def variants(case):
+    """the requests of a 'pair' case: one application, one handler program, two environs"""
+    base = dict(case, kind='req')
+    base.pop('second', None)
+    return [base, dict(base, **case['second'])]
 
 
 def status_unmodelled(case):
@@ -497,6 +515,8 @@ def status_unmodelled(case):
 def project(obs, case):
     if case['kind'] == 'status':
         return dict(status='unmodelled') if status_unmodelled(case) else obs
+    if case['kind'] == 'pair':
+        return dict(pair=[project(o, v) for o, v in zip(obs.get('pair', []), variants(case))])
     if 'events' not in obs:
         return obs
     return dict(events=[e for e in obs['events'] if e[0] not in ('next', 'read')], escaped=obs['escaped'] is not None)
@@ -631,6 +651,9 @@ def encode(case):
         tbl = enc_list(sorted(PHRASES.items()), lambda kv: [kv[0]] + S(kv[1]))
         a = case['arg']
         return [1] + tbl + ([0, a] if isinstance(a, int) else [1] + S(a))
+    if case['kind'] == 'pair':
+        blocks = [encode(v)[1:] for v in variants(case)]
+        return [2, len(blocks)] + [x for b in blocks for x in [len(b)] + b]
     rt = case['routing']
     if rt['k'] == '404':
         r = [0] + ([0] if rt.get('partial') is None else [1] + enc_hprog(rt['partial']))
@@ -675,6 +698,13 @@ def dec_event(q):
 
 
 def decode(out, case):
+    if case['kind'] == 'pair':
+        q = Reader(out)
+        n = q.int()
+        res = []
+        for v in variants(case)[:n]:
+            res.append(decode(q.str(), v))
+        return dict(pair=res)
     q = Reader(out)
     tag = q.int()
     if case['kind'] == 'status':
@@ -777,6 +807,14 @@ def oracle(case, obs):
         return None
     if obs.get('hang'):
         return 'request did not terminate'
+    if case['kind'] == 'pair':
+        if 'pair' not in obs:
+            return 'harness failure: %s' % obs
+        for k, (o, v) in enumerate(zip(obs['pair'], variants(case))):
+            f = oracle(v, o)
+            if f:
+                return 'request %d of the same application: %s' % (k + 1, f)
+        return None
     if 'events' not in obs:
         return 'harness failure: %s' % obs
     if obs['escaped']:
@@ -889,7 +927,10 @@ CTYPES = ['text/plain', 'text/plain; charset=latin1', 'text/html; charset=UTF-8'
           'x; charset=utf8; charset= iso-8859-1 ', 'text/plain; charset=', 'charset=']
 HNAMES = ['X-A', 'X-B', 'Content-Type', 'Content-Length', 'content-type', 'Allow', 'Last-Modified']
 LINES = ['200 OK', '404 Brain not found', '299 x', ' 201 Created ', '204 none', '304 nm', '101 sw', '500 Oops',
-         '102 P']
+         '102 P', '520 Origin Unreachable', '999 Nine', '199 Early']
+
+
+COOKIE_VALUES = ['v1', 'a b', 'x', '5 \u20ac', '\u6f22\u5b57', '\u00e9', '\x80\u00ff', 'a;b,c"d']
 
 
 class Ctx:
@@ -940,7 +981,7 @@ def g_resp(c, depth, err):
         status = g_status(rng)
     return dict(status=status,
                 headers=[g_header(rng) for _ in range(rng.choice([0, 0, 1, 2]))],
-                cookies=[[rng.choice(['sid', 'k']), rng.choice(['v1', 'a b', 'x'])] for _ in range(rng.choice([0, 0, 0, 1, 2]))],
+                cookies=[[rng.choice(['sid', 'k']), rng.choice(COOKIE_VALUES)] for _ in range(rng.choice([0, 0, 0, 1, 2]))],
                 body=body)
 
 
@@ -1021,7 +1062,7 @@ def g_muts(rng, c=None):
             n, v = g_header(rng)
             out.append(dict(m='add', n=n, v=v))
         else:
-            out.append(dict(m='cookie', n=rng.choice(['sid', 'k']), v=rng.choice(['v1', 'a b', 'x'])))
+            out.append(dict(m='cookie', n=rng.choice(['sid', 'k']), v=rng.choice(COOKIE_VALUES)))
     return out
 
 
@@ -1084,8 +1125,37 @@ STATUS_ARGS = [200, 100, 999, 99, 1000, 0, -5, 404, 418, 299, '200 OK', '404 Bra
                '４０４ wide', '4_0_4 u', '404  two spaces', '404 ']
 
 
+def g_pair(rng):
+    """one application, two requests; its handler (or a before hook) raises / returns a response
+    object it keeps between requests"""
+    c = Ctx(rng, edits=False)
+    case = g_case(rng, edits=False)
+    err = rng.random() < 0.7
+    r = g_resp(c, 1, err)
+    # the object lives across requests: its body must not be a one-shot iterator / file
+    r['body'] = dict(k='str', s=rng.choice(['Access denied', 'no', '', 'é'])) if err or rng.random() < 0.7 \
+        else dict(k='bytes', b=g_bytes(rng))
+    where = rng.random()
+    if where < 0.45:
+        h = dict(muts=g_muts(rng, c), res=dict(k='raise_http', err=err, r=r, shared='S'))
+    elif where < 0.8:
+        h = dict(muts=g_muts(rng, c), res=dict(k='ret', o=dict(k='http', err=err, r=r, shared='S')))
+    else:
+        h = g_hprog(c, 1)
+        case['before'] = [dict(muts=[], res=dict(k='raise_http', err=err, r=r, shared='S'))]
+    case['routing'] = dict(k='ok', reg='ANY', rhooks=[], h=h)
+    case['kind'] = 'pair'
+    case['second'] = dict(path='special' if case['path'] == 'plain' or rng.random() < 0.5 else 'plain',
+                          json=rng.random() < 0.3, method=rng.choice(['GET', 'GET', 'POST', 'HEAD']),
+                          fw=rng.random() < 0.2)
+    return case
+
+
 def gen(rng, n):
     for i in range(n):
+        if rng.random() < 0.06:
+            yield g_pair(rng)
+            continue
         if rng.random() < 0.02:
             a = rng.choice(STATUS_ARGS)
             if rng.random() < 0.3:
@@ -1194,6 +1264,22 @@ def corpus():
         cs.append(ret(hello, before=[hk(rm(True, 1)), hk(add(True, 13))], after=[hk(), hk(), hk()], **kw))   # before hooks edit the after list
     cs.append(ret(hello, after=[hk(), hk(), hk()],
                   routing=dict(k='ok', rhooks=[], h=dict(muts=[rm(True, 0), add(True, 14)], res=dict(k='ret', o=hello)))))
+    # one HTTPError instance raised by two requests of one application (seeded change: apply adopts its header dict)
+    denied = dict(status=403, headers=[], cookies=[], body=_str('Access denied'))
+    for sec in (dict(path='special'), dict(path='special', json=True), dict(method='HEAD')):
+        cs.append(dict(ret(hello, routing=dict(k='ok', reg='ANY', rhooks=[],
+                                               h=dict(muts=[], res=dict(k='raise_http', err=True, r=denied, shared='D')))),
+                       kind='pair', second=sec))
+    cs.append(dict(ret(dict(k='http', err=False, shared='R',
+                            r=dict(status=200, headers=[['X-A', 'v']], cookies=[], body=_str('abc'))),
+                       routing=None), kind='pair', second=dict(path='special')))
+    cs[-1]['routing'] = dict(k='ok', reg='ANY', rhooks=[],
+                             h=dict(muts=[], res=dict(k='ret', o=dict(k='http', err=True, shared='E', r=denied))))
+    # cookie values outside Latin-1 / in 0x80-0xFF (seeded change: Set-Cookie without the utf8 -> latin1 round trip)
+    for v in COOKIE_VALUES:
+        cs.append(ret(hello, routing=dict(k='ok', rhooks=[],
+                                          h=dict(muts=[dict(m='cookie', n='sid', v=v)], res=dict(k='ret', o=hello)))))
+        cs.append(ret(_resp(200, hello, cookies=[('k', v)])))
     for a in STATUS_ARGS:
         cs.append(dict(kind='status', arg=a))
     return cs
@@ -1271,6 +1357,8 @@ def _kinds(case):
 
 
 def nontrivial(case, obs):
+    if case['kind'] == 'pair':
+        return True
     if case['kind'] != 'req':
         return False
     ks = _kinds(case)
@@ -1286,6 +1374,8 @@ def key(case):
 def classify(case, obs):
     if case['kind'] == 'status':
         return 'status-setter/%s' % obs.get('status')
+    if case['kind'] == 'pair':
+        return 'pair/shared-response-object'
     rt = case['routing']
     top = rt['k']
     if top == 'ok':
@@ -1316,6 +1406,10 @@ def _sub_outs(o):
 
 
 def shrink(case):
+    if case['kind'] == 'pair':
+        for sc in shrink(dict(case, kind='req')):
+            yield dict(sc, kind='pair')
+        return
     if case['kind'] != 'req':
         return
     for f in ('before', 'after', 'eh'):
